@@ -31,7 +31,10 @@ structure SchemaRulesAll (s : SchemaD) (fx : Fixes) (d : Doc) : Prop where
   valuesOfCorrectType : valuesOfCorrectType s fx d
   variablesInAllowedPosition : variablesInAllowedPosition s d
 
-/-- **Operations stay valid: 25 of the 26 rules.** -/
+/-- **Operations stay valid: 25 of the 26 rules** (specification predicates; PARTIAL with respect to the clause as worded,
+    `OperationsStayValidFull` of Props/C20_full.lean: OverlappingFieldsCanBeMerged is omitted - it is false, G4 - and
+    `OpsRooted` is assumed - necessary, G6; the same statement on the validator model is
+    `operations_stay_valid_all_but_overlap_partial`). -/
 theorem operations_stay_valid_rules_all (o n : SchemaD) (h : diffSchema o n 2 = []) (wo : OldWf o) (wn : NewWf n)
     (woi : OldWfIn o) (wni : NewWfIn n) (fx : Fixes) (hv9 : fx.v9 = true) (hv10 : fx.v10 = true) (d : Doc)
     (hR : OpsRooted o d) (hv : SchemaRulesAll o fx d) : SchemaRulesAll n fx d :=
